@@ -405,6 +405,8 @@ impl Prop for C11 {
             owns: |v| match v.rule {
                 Rule::DiscardErr => true,
                 Rule::Frame => v.has_tag("after:discard"),
+                // the full read right after a discard fails or comes back short
+                Rule::ReadLen | Rule::ApiErr => v.has_tag("sweep") && v.has_tag("after:discard"),
                 Rule::ReadData | Rule::Reopen => v.has_tag("kind:Discarded"),
                 Rule::CheckLeak | Rule::CheckUnder => v.has_tag("discarded_host"),
                 Rule::Panic | Rule::Deadlock | Rule::Budget => v.has_tag("discard"),
